@@ -312,35 +312,49 @@ def c17_case(args):
 
 
 def groupby_concurrent(L):
-    """The groupby iterator and one of its groups advanced by two tasks while the source is
-    suspended: nothing but the source's own tokens may reach the loop."""
+    """The groupby iterator and its latest group advanced by two tasks in every interleaving of
+    up to 7 steps while the source suspends: nothing but the source's own tokens may reach the
+    loop (what the two consumers receive is not judged here -- the documentation calls
+    concurrent advancing unsafe)."""
     from .instruments import ClsSource  # noqa: PLC0415
 
     out = []
     for data in ([1, 1, 2], [1, 2, 2, 1]):
-        rec = Recorder()
-        rec.susp = 1
-        src = ClsSource(rec, 1, [Item(1, p + 1, k) for p, k in enumerate(data)])
-        gb = L.groupby(src)
-        r = Task(gb.__anext__(), rec.acct).run()
-        if r[0] != "done":
-            continue
-        grp = r[1][1]
-        t1 = Task(gb.__anext__(), rec.acct)
-        t2 = Task(grp.__anext__(), rec.acct)
-        steps = [t1, t2, t2, t1, t1, t2, t1, t2]
-        problems = None
-        for t in steps:
-            if t.done:
-                continue
-            r = t.step()
-            if r[0] == "raised" and not isinstance(r[1], (StopAsyncIteration,)):
-                problems = f"raised {type(r[1]).__name__}: {r[1]}"
+        for sched in itertools.product("AB", repeat=7):
+            rec = Recorder()
+            rec.susp = 1
+            src = ClsSource(rec, 1, [Item(1, p + 1, k) for p, k in enumerate(data)])
+            gb = L.groupby(src)
+            r = Task(gb.__anext__(), rec.acct).run()
+            if r[0] != "done":
                 break
-        if not rec.acct.ok():
-            problems = problems or str(rec.acct.describe())
-        if problems:
-            out.append(("C17/groupby/concurrent-advance-leaves-user-awaitables", {"engine": "scenario", "cfg": {"data": data}, "observed": problems}))
+            grp = [r[1][1]]
+            tasks = {"A": None, "B": None}
+            problems = None
+            for who in sched:
+                t = tasks[who]
+                if t is None or t.done:
+                    t = tasks[who] = Task(gb.__anext__() if who == "A" else grp[-1].__anext__(), rec.acct)
+                r = t.step()
+                if r[0] == "done" and who == "A":
+                    grp.append(r[1][1])
+                if r[0] == "raised" and not isinstance(r[1], StopAsyncIteration):
+                    problems = f"raised {type(r[1]).__name__}: {r[1]}"
+                    break
+                if r[0] == "token" and not hasattr(r[1], "uid"):
+                    problems = f"foreign suspension {r[1]!r}"
+                    break
+            for t in tasks.values():      # let everything finish
+                n = 0
+                while t is not None and not t.done and n < 20 and problems is None:
+                    r = t.step()
+                    n += 1
+            if not rec.acct.ok():
+                problems = problems or str(rec.acct.describe())
+            if problems:
+                out.append(("C17/groupby/concurrent-advance-leaves-user-awaitables",
+                            {"engine": "scenario", "cfg": {"data": data, "schedule": "".join(sched)}, "observed": problems[:300]}))
+                break
     return out
 
 
@@ -547,7 +561,8 @@ def check_c18(prop, tier, seed):
 
     def cancel_only(sig, d):
         ev = json.dumps(d.get("matched_prefix", "")) + json.dumps(d.get("rejected_event", "")) + json.dumps(d.get("path", ""))
-        return ("C18/" + sig.split("/", 1)[1]) if ("cancel" in sig or "cancel" in ev) else None
+        del ev
+        return ("C18/" + sig.split("/", 1)[1]) if "cancel" in sig else None
 
     sub = {}
     for name, eng, p_ in (("tee", eng_tee, "C09"), ("lruconc", eng_lruconc, "C11"), ("cprop", eng_cprop, "C12")):
